@@ -999,7 +999,20 @@ func runScenario(t *testing.T, sc *Scenario, tr int, out *bufio.Writer) {
 	r.mu.Lock()
 	r.freeRun = true
 	r.mu.Unlock()
-	r.releaseAll()
+	for i := 0; i < 1000; i++ {
+		r.releaseAll()
+		r.mu.Lock()
+		nh := len(r.heldOrder)
+		k := 0
+		if nh > 0 {
+			k = r.heldOrder[0]
+		}
+		r.mu.Unlock()
+		if nh == 0 {
+			break
+		}
+		r.endExport(k, r.nextResult())
+	}
 	done := make(chan struct{})
 	go func() { wg.Wait(); close(done) }()
 	synctest.Wait()
